@@ -236,6 +236,15 @@ def run(tier):
                        "schedules are those the OS produced (sampled), not enumerated"]
     threads_model(chk, 3, 3, "none", "ok")
     threads_model(chk, 2, 2, "shared_scratch", "violated")
+    # isolation of instances operated alternately on one thread, calls that may fail included (Instances.tla)
+    work = vlib.scratch("c20inst")
+    for bug, expect in (("none", "ok"), ("memo", "violated"), ("leak_on_exc", "violated"), ("hint", "violated")):
+        cfg = vlib.make_cfg(work / f"Instances_{bug}.cfg", spec="Spec", constants={"NInst": 3 if bug == "none" else 2, "Calls": 3, "IBug": f'"{bug}"'},
+                            invariants=["Isolation"])
+        res, verdict = vlib.model_check("Instances", cfg, workers=2, timeout=300)
+        chk.add_model("Instances(3 instances x 3 calls, any interleaving, failing calls)" if bug == "none"
+                      else f"Instances[IBug={bug}] (self-test, must fail)", res, verdict, expect=expect)
+    shutil.rmtree(work, ignore_errors=True)
     rng = rng_for(chk, 20)
     n = 48 if tier == "quick" else 400
     hs = [histgen.gen_history(rng, nops=rng.choice([8, 16, 30]), comp=["none", "gz", "xz"][i % 3], out=["file", "fd"][i % 2],
